@@ -637,6 +637,315 @@ class RIConvert(Contract):
 
 
 # ----------------------------------------------------------------------------
+# junction -> transcript: the deletion records
+# ----------------------------------------------------------------------------
+@register
+class InterjacentExons(Contract):
+    """the exons between the two ends of a junction, seen from the aligned side: the maximal run of consecutive exons right after the exon
+    that ends at the junction's upstream end (or, if that end is not aligned, right before the exon that starts at its downstream start)
+    that lie entirely inside [upstream_end, downstream_start], returned in ascending order"""
+    path, qualname, props = SJ, 'SpliceJunctionTranscriptAlignment.get_interjacent_exons', ('C16',)
+    declared_raises = ['ValueError']
+    models = (install_exon_identity,)
+    assumptions = ('requires (contract of align_to_transcript): an index is -1 or the position of the exon with that boundary, at least one side aligned; '
+                   'exons sorted, non-empty, disjoint and non-adjacent',)
+
+    def setup(self, I):
+        e = I.e
+        st = types.SimpleNamespace()
+        st.h = mk_tx_tagged(I, gene_id='G')
+        h = st.h
+        for a in h.axioms:
+            e.assume(a)
+        st.U, st.D = e.int('junction_upstream_end'), e.int('junction_downstream_start')
+        st.ue, st.ds = e.int('upstream_end_index'), e.int('downstream_start_index')
+        e.assume(z3.And(st.U < st.D, z3.Or(st.ue == -1, z3.And(0 <= st.ue, st.ue < h.n, h.e[st.ue] == st.U)),
+                        z3.Or(st.ds == -1, z3.And(0 <= st.ds, st.ds < h.n, h.s[st.ds] == st.D)), z3.Or(st.ue != -1, st.ds != -1)))
+        junction = SymObj('SpliceJunction', upstream_start=None, upstream_end=st.U, downstream_start=st.D, downstream_end=None, gene_id='G', chrom='chr1')
+        st.args = [SymObj('SpliceJunctionTranscriptAlignment', junction=junction, tx_model=h.obj, upstream_start_index=-1, upstream_end_index=st.ue,
+                          downstream_start_index=st.ds, downstream_end_index=-1, upstream_novel=True, downstream_novel=True)]
+        self._cur = st
+        return st
+
+    def inside(self, i):
+        st = self._cur
+        return z3.And(st.U <= st.h.s[i], st.h.e[i] <= st.D)
+
+    def havoc(self, I, env, k):
+        from pyvc.symlist import SymList
+        env['interjacent'] = SymList(I, 'interjacent')
+
+    def inv(self, I, env, k):
+        st, h = self._cur, self._cur.h
+        lst = env['interjacent']
+        if isinstance(lst, list):
+            return [('nothing-collected-at-entry', len(lst) == 0)]
+        rev = env['is_reversed']
+        c = lst.length
+        t = z3.Int('t_run')
+        at = (lambda q: st.ds - 1 - q) if rev else (lambda q: st.ue + 1 + q)
+        cur_skipped = at(k - 1)
+        overlap = z3.And(h.s[cur_skipped] < st.U, st.U < h.e[cur_skipped]) if rev else z3.And(h.s[cur_skipped] < st.D, st.D < h.e[cur_skipped])
+        return [('collected=the-run-of-inside-exons-scanned-so-far', z3.And(0 <= c, c <= k, z3.ForAll([t], z3.Implies(z3.And(0 <= t, t < c), z3.And(lst.arr[t] == at(t), self.inside(at(t))))))),
+                ('at-most-one-exon-straddling-the-far-end-was-passed', z3.Or(c == k, z3.And(c == k - 1, k >= 1, overlap)))]
+
+    @property
+    def loops(self):
+        return {0: LoopSpec(inv=self.inv, havoc=self.havoc)}
+
+    def post_return(self, I, st, ret):
+        h = st.h
+        view = I.as_view(ret)
+        n = view.length()
+        n = n if is_z3(n) else z3.IntVal(n)
+        t = z3.Int('t_ret')
+        fwd = st.ue > -1
+        first = z3.If(fwd, st.ue + 1, st.ds - n)
+        nxt = z3.If(fwd, st.ue + 1 + n, st.ds - 1 - n)
+        el = (lambda q: view.get(q)) if not (isinstance(ret, list) and not ret) else (lambda q: q)
+        I.e.prove('C16/interjacent/consecutive-exons-inside-the-junction-gap-in-ascending-order',
+                  z3.And(n >= 0, z3.ForAll([t], z3.Implies(z3.And(0 <= t, t < n), z3.And(el(t) == first + t, 0 <= first + t, first + t < h.n, self.inside(first + t))))))
+        I.e.prove('C16/interjacent/run-is-maximal', z3.Or(nxt < 0, nxt >= h.n, z3.Not(self.inside(nxt))))
+
+
+class _Interjacent(View):
+    """the exons lying between the two ends of a junction: consecutive indices first .. first+m-1 (contract of get_interjacent_exons)"""
+    def __init__(self, first, m):
+        self.first, self.m = first, m
+
+    def length(self):
+        return self.m
+
+    def get(self, t):
+        return self.first + (t if is_z3(t) else z3.IntVal(t))
+
+    def sym_truth(self, I):
+        return self.m > 0
+
+    def sym_getitem(self, I, idx):
+        if idx == 0:
+            if not I.e.branch(self.m > 0, 'interjacent non-empty'):
+                I.raise_('IndexError', 'list index out of range')
+            return self.first
+        if idx == -1:
+            if not I.e.branch(self.m > 0, 'interjacent non-empty'):
+                I.raise_('IndexError', 'list index out of range')
+            return self.first + self.m - 1
+        raise Unsupported(f'interjacent[{idx!r}]')
+
+
+class _JunctionDeletion(Contract):
+    """the deletion removes, in gene coordinates, exactly the hull of what the junction skips on this side: the part of the spanning exon
+    beyond the junction end together with every interjacent exon (nothing more, nothing less at either end), on both strands"""
+    props = ('C16',)
+    side = 'upstream'
+    declared_raises = ['ValueError']
+    models = (install_exon_identity,)
+    assumptions = ('requires (call site, convert_to_variant_records): a spanning exon exists; interjacent exons are consecutive exons between the '
+                   'junction ends (contract of get_interjacent_exons) lying after (upstream) / before (downstream) the spanning exon; there is '
+                   'something to delete (the spanning exon reaches beyond the junction end or an interjacent exon exists)',
+                   'summary: coordinate_genomic_to_gene is its proved contract (C11); exons sorted, non-empty, disjoint')
+
+    @property
+    def path(self):
+        return SJ
+
+    @property
+    def qualname(self):
+        return f'SpliceJunctionTranscriptAlignment.create_{self.side}_deletion'
+
+    def setup(self, I):
+        e = I.e
+        st = types.SimpleNamespace()
+        st.gn = mk_gene_tagged(I, gene_id='G')
+        st.h = mk_tx_tagged(I, gene_id='G')
+        h = st.h
+        st.U, st.D = e.int('junction_upstream_end'), e.int('junction_downstream_start')
+        st.sp, st.first, st.m = e.int('spanning'), e.int('first_interjacent'), e.int('n_interjacent')
+        last = st.first + st.m - 1
+        # only the quantifier-free consequences of "exons sorted, non-empty, disjoint" that concern the spanning exon and the first
+        # and last interjacent exon are assumed here, so that a wrong interval is refuted with a model (the fact that every
+        # exon in between lies inside the hull is the separate lemma skipped_bases_lie_in_the_hull)
+        e.assume(z3.And(st.gn.start < st.gn.end, h.n >= 1, 0 <= st.sp, st.sp < h.n, st.m >= 0, st.U < st.D, h.s[st.sp] < h.e[st.sp], h.s[st.sp] >= 0))
+        e.assume(z3.Implies(st.m > 0, z3.And(0 <= st.first, st.first + st.m <= h.n, h.s[st.first] < h.e[st.first], h.s[last] < h.e[last],
+                                             z3.Implies(st.m >= 2, h.e[st.first] < h.s[last]), st.U <= h.s[st.first], h.e[last] <= st.D)))
+        if self.side == 'upstream':
+            # spanning exon contains the last base before the junction: s <= U-1 < e ; interjacent exons come right after it
+            e.assume(z3.And(h.s[st.sp] <= st.U - 1, st.U - 1 < h.e[st.sp], z3.Implies(st.m > 0, z3.And(st.first == st.sp + 1, h.e[st.sp] < h.s[st.first]))))
+            e.assume(z3.Or(h.e[st.sp] > st.U, st.m > 0))
+        else:
+            e.assume(z3.And(h.s[st.sp] <= st.D, st.D < h.e[st.sp], z3.Implies(st.m > 0, z3.And(last == st.sp - 1, h.e[last] < h.s[st.sp]))))
+            e.assume(z3.Or(h.s[st.sp] < st.D, st.m > 0))
+        st.G = PStr.sym(e, 'gene_seq', st.gn.end - st.gn.start)
+        st.gn.obj.fields['gene_name'] = 'SYMBOL'
+        st.gn.obj.fields['strand'] = st.gn.strand
+        st.anno = SymObj('GenomicAnnotation', genes={'G': st.gn.obj}, transcripts={}, source='GENCODE', gene_id_version_mapper=None, version=None, _cached_tx_seqs=[])
+        junction = SymObj('SpliceJunction', upstream_start=None, upstream_end=st.U, downstream_start=st.D, downstream_end=None, gene_id='G', chrom='chr1')
+        st.aln = SymObj('SpliceJunctionTranscriptAlignment', junction=junction, tx_model=h.obj, upstream_start_index=-1, upstream_end_index=-1,
+                        downstream_start_index=-1, downstream_end_index=-1, upstream_novel=True, downstream_novel=True)
+        st.args = [st.aln, st.sp, _Interjacent(st.first, st.m), st.anno, SymObj('GeneSeq16', seq=st.G), SymObj('VarId16')]
+        self._cur = st
+        return st
+
+    @property
+    def models(self):
+        c = self
+
+        def inst(reg):
+            install_exon_identity(reg)
+            reg.ctor_('VariantRecord', lambda I, a, k: SymObj('VariantRecord', **dict(zip(['location', 'ref', 'alt', 'type', 'id', 'attrs'], a))))
+        return (inst,)
+
+    def post_return(self, I, st, ret):
+        e, h, gn = I.e, st.h, st.gn
+        # R = what the junction skips on this side
+        if self.side == 'upstream':
+            lo = z3.If(h.e[st.sp] > st.U, st.U, h.s[st.first])                 # first skipped genomic base
+            hi = z3.If(st.m > 0, h.e[st.first + st.m - 1], h.e[st.sp])         # one past the last skipped base
+        else:
+            lo = z3.If(st.m > 0, h.s[st.first], h.s[st.sp])
+            hi = z3.If(h.s[st.sp] < st.D, st.D, h.e[st.first + st.m - 1])
+        a = z3.If(gn.strand == 1, lo - gn.start, gn.end - hi)
+        b = z3.If(gn.strand == 1, hi - gn.start, gn.end - lo)
+        loc, at = ret.fields['location'], ret.fields['attrs']
+        e.prove(f'C16/{self.side}-deletion/interval=gene-image-of-the-hull-of-the-skipped-bases',
+                z3.And(loc.fields['start'] == a, loc.fields['end'] == b, at.get('START') == a, at.get('END') == b, lo < hi))
+        e.prove(f'C16/{self.side}-deletion/record-on-the-gene-for-this-transcript',
+                loc.fields['seqname'] == 'G' and ret.fields['type'] == 'Deletion' and ret.fields['alt'] == '<DEL>' and at.get('TRANSCRIPT_ID') == 'ENST_T')
+        ref = ret.fields['ref']
+        e.prove(f'C16/{self.side}-deletion/ref=first-deleted-gene-base', ref.get(0) == st.G.get(a) if isinstance(ref, PStr) else False)
+
+
+for _side in ('upstream', 'downstream'):
+    register(type(f'JunctionDeletion_{_side}', (_JunctionDeletion,), dict(side=_side)))
+
+
+@register
+class SkippedBasesInHull(Lemma):
+    """in a transcript with sorted, disjoint exons, every base of a run of consecutive exons first..last lies between the start of the
+    first and the end of the last of them (so the interval of the deletion records covers every interjacent exon entirely)"""
+    qualname, props = 'skipped_bases_lie_in_the_hull', ('C16',)
+
+    def obligations(self, e):
+        from .c11 import _H
+        h = _H('Hull')
+        first, last, j, x = z3.Ints('first last j x')
+        hy = wf_exons(h) + [0 <= first, first <= j, j <= last, last < h.n, h.s[j] <= x, x < h.e[j]]
+        return [('base-of-an-inner-exon-lies-in-the-hull', hy, z3.And(h.s[first] <= x, x < h.e[last]))]
+
+
+# ----------------------------------------------------------------------------
+# rMATS text -> record: every coordinate and count column reaches the attribute of that name unchanged
+# ----------------------------------------------------------------------------
+# column layout of the rMATS event tables (rMATS documentation; starts are the *_0base / ES columns, ends the EE columns)
+READLINE_COLUMNS = {
+    'SE': ('SERecord', ['exon_start', 'exon_end', 'upstream_exon_start', 'upstream_exon_end', 'downstream_exon_start', 'downstream_exon_end']),
+    'A5SS': ('A5SSRecord', ['long_exon_start', 'long_exon_end', 'short_exon_start', 'short_exon_end', 'flanking_exon_start', 'flanking_exon_end']),
+    'A3SS': ('A3SSRecord', ['long_exon_start', 'long_exon_end', 'short_exon_start', 'short_exon_end', 'flanking_exon_start', 'flanking_exon_end']),
+    'MXE': ('MXERecord', ['first_exon_start', 'first_exon_end', 'second_exon_start', 'second_exon_end', 'upstream_exon_start', 'upstream_exon_end',
+                          'downstream_exon_start', 'downstream_exon_end']),
+    'RI': ('RIRecord', ['retained_intron_exon_start', 'retained_intron_exon_end', 'upstream_exon_start', 'upstream_exon_end', 'downstream_exon_start',
+                        'downstream_exon_end']),
+}
+
+
+class _Col:
+    """one tab-separated column of an rMATS line"""
+    def __init__(self, owner, k):
+        self.owner, self.k = owner, k
+
+    def sym_int(self, I):
+        return self.owner._cur.COL(self.k)
+
+    def sym_float(self, I):
+        return SymObj('FloatOf', k=self.k)
+
+    def sym_eq(self, I, other):
+        if other in ('', 'NA'):
+            return self.owner._cur.EMPTY(self.k)
+        raise Unsupported(f'column compared with {other!r}')
+
+    def sym_method(self, I, name, a, k):
+        if name == 'strip':
+            return _ColText(self.k)
+        raise Unsupported(f'column.{name}')
+
+
+class _ColText:
+    def __init__(self, k):
+        self.k = k
+
+
+class _RmatsReadline(Contract):
+    """ID, GeneID, geneSymbol, chr, strand, then the coordinate columns of the event type in the order of the rMATS table, ID,
+    IJC_SAMPLE_1, SJC_SAMPLE_1, IJC_SAMPLE_2, SJC_SAMPLE_2, IncFormLen, SkipFormLen, PValue, FDR: each coordinate / count attribute of the
+    record is the integer in its column, unchanged (rMATS starts are 0-based, ends 1-based = half-open intervals, as the records assume)"""
+    props = ('C16',)
+    event = 'SE'
+    assumptions = ('assumed: str.split / strip / int / float of one table line behave as in CPython; a line has all columns of its table',)
+
+    @property
+    def path(self):
+        return RM + READLINE_COLUMNS[self.event][0] + '.py'
+
+    @property
+    def qualname(self):
+        return READLINE_COLUMNS[self.event][0] + '.readline'
+
+    def setup(self, I):
+        from pyvc.values import ClassRef
+        e = I.e
+        st = types.SimpleNamespace()
+        st.COL, st.EMPTY = z3.Function('column_as_int', I_, I_), z3.Function('column_is_empty_or_NA', I_, B_)
+        c = self
+
+        class Cols:
+            def sym_getitem(s_, I2, idx):
+                if not isinstance(idx, int) or idx < 0:
+                    raise Unsupported(f'fields[{idx!r}]')
+                return _Col(c, idx)
+
+        class Line:
+            def sym_method(s_, I2, name, a, k):
+                if name == 'rstrip':
+                    return s_
+                if name == 'split' and list(a) == ['\t']:
+                    return Cols()
+                raise Unsupported(f'line.{name}')
+        cls = READLINE_COLUMNS[self.event][0]
+        st.args = [ClassRef(cls, I.repo.get_class(cls)), Line()]
+        self._cur = st
+        return st
+
+    @property
+    def models(self):
+        return ()
+
+    def post_return(self, I, st, ret):
+        cls, coords = READLINE_COLUMNS[self.event]
+        ok = isinstance(ret, SymObj) and ret.cls == cls
+        I.e.prove('C16/readline/returns-a-record-of-its-own-class', ok)
+        if not ok:
+            return
+        f = ret.fields
+        for n, attr in enumerate(coords):
+            I.e.prove(f'C16/readline/{attr}=column-{5 + n}-unchanged', f.get(attr) == st.COL(5 + n) if is_z3(f.get(attr)) else False)
+        base = 5 + len(coords) + 1          # the second ID column follows the coordinates
+        for off, attr in enumerate(['ijc_sample_1', 'sjc_sample_1']):
+            I.e.prove(f'C16/readline/{attr}=column-{base + off}-unchanged', f.get(attr) == st.COL(base + off) if is_z3(f.get(attr)) else False)
+        for off, attr in ((2, 'ijc_sample_2'), (3, 'sjc_sample_2')):
+            v = f.get(attr)
+            I.e.prove(f'C16/readline/{attr}=column-{base + off}-or-None-when-empty', (v is None) if not is_z3(v) else v == st.COL(base + off))
+        for k, attr in ((1, 'gene_id'), (2, 'gene_symbol')):
+            I.e.prove(f'C16/readline/{attr}=column-{k}-without-quotes', isinstance(f.get(attr), _ColText) and f[attr].k == k)
+        I.e.prove('C16/readline/chrom=column-3', isinstance(f.get('chrom'), _Col) and f['chrom'].k == 3)
+
+
+for _ev in READLINE_COLUMNS:
+    register(type(f'RmatsReadline_{_ev}', (_RmatsReadline,), dict(event=_ev)))
+
+
+# ----------------------------------------------------------------------------
 # the parseRMATS command: thresholds reach the record classes under the right names; every record is kept
 # ----------------------------------------------------------------------------
 PRC = 'moPepGen/cli/parse_rmats.py'
